@@ -481,6 +481,11 @@ pub fn corner_files() -> Vec<(Cfg, Vec<Entry>)> {
     v.push((c(0, 1024, 1, 4), longs(24, 700)));
     // the smallest tree with two blocks on index level 2 (model-checked in the quick tier)
     v.push((c(0, 1024, 8, 2), longs(20, 0)));
+    // NOTE: corner indices are referenced by spec/MCCursor_t<idx>.tla; append new corners below only.
+    // extremely compressible blocks far larger than a block size (decompression buffer heuristics)
+    for codec in 1..6u8 {
+        v.push((c(codec, 1024, 8, 1), vec![(vec![1u8], vec![0x61u8; 300_000]), (vec![2u8], vec![0u8; 70_000]), (vec![3u8], b"abcabcabc".repeat(20_000))]));
+    }
     v
 }
 
@@ -860,4 +865,111 @@ pub fn scn_alloc_readers(out: &mut TraceOut, r: &mut R, idx: u64, heavy: bool, s
                   "mismatch": end.mismatch - before.mismatch, "guard": end.guard - before.guard,
                   "double_free": end.double_free - before.double_free, "bad_magic": end.bad_magic - before.bad_magic,
                   "leaked_class": end.live_class - after_first.live_class, "first_mismatch": [ma, mf]}));
+}
+
+/// Files for the exhaustive exploration of the implementation's own cursor states.
+pub fn explore_files() -> Vec<(Cfg, Vec<Entry>)> {
+    let c = |bs: usize, k: usize, l: u8| Cfg { codec: 0, level: 0, block_size: bs, interval: k, levels: l };
+    let short = |n: u32, vlen: usize| -> Vec<Entry> {
+        (0..n).map(|i| ((i * 2 + 1).to_be_bytes().to_vec(), value_for(i + 1, vlen))).collect()
+    };
+    let longs = |n: u32, vlen: usize| -> Vec<Entry> {
+        (0..n).map(|i| (long_key(1 + 2 * i), value_for(i + 1, vlen))).collect()
+    };
+    vec![
+        // >= 9 data blocks under ONE index block with the default interval 8 (in-block table of
+        // the index block has several slots), two entries per data block
+        (c(1024, 8, 0), short(22, 500)),
+        (c(1024, 8, 1), short(20, 500)),
+        (c(1024, 3, 0), short(14, 500)),
+        // two blocks on index level 2
+        (c(1024, 8, 2), longs(20, 0)),
+        (c(1024, 1, 2), longs(12, 400)),
+        // index level 3 with two blocks on level 2
+        (c(1024, 8, 3), longs(36, 400)),
+        // single block, interval 2
+        (c(1024, 2, 0), short(9, 3)),
+        (c(1024, 8, 0), vec![]),
+        (c(1024, 8, 2), vec![(vec![], vec![])]),
+    ]
+}
+
+/// Breadth-first exploration of the real cursor's reachable states (deduplicated with the
+/// fingerprint of hook H1 together with the logical position): from every state, every operation
+/// and every probe class is executed on a clone and logged, so that TLC judges every
+/// (reachable state, operation) pair of the implementation against the contract.
+pub fn scn_explore(out: &mut TraceOut, _r: &mut R, idx: u64, heavy: bool) {
+    use std::collections::{HashSet, VecDeque};
+    let files = explore_files();
+    let (cfg, entries) = files[(idx as usize) % files.len()].clone();
+    let n = entries.len();
+    let max_states = if heavy { 20_000 } else { 120 };
+    let all_probes: Vec<Vec<u8>> = (1..=2 * n + 1).filter_map(|q| model_probe(&entries, q)).collect();
+    let (dict, data) = build_and_log(out, &cfg, &entries, &all_probes, 2);
+    let Some(data) = data else { return };
+    let mut ops: Vec<Op> = vec![Op::First, Op::Last, Op::Next, Op::Prev, Op::Current, Op::Reset];
+    for p in &all_probes {
+        ops.push(Op::Ge(p.clone()));
+        ops.push(Op::Le(p.clone()));
+        ops.push(Op::Eq(p.clone()));
+    }
+    // abstract bookkeeping used only to tell states apart (never to judge results)
+    #[derive(Clone, PartialEq, Eq, Hash)]
+    struct Abs {
+        pos: i64,
+        zone: bool,
+    }
+    let step = |a: &Abs, op: &Op, res: i64| -> Abs {
+        match op {
+            Op::First | Op::Last | Op::Ge(_) | Op::Le(_) | Op::Eq(_) => {
+                if res > 0 { Abs { pos: res, zone: false } } else { Abs { pos: a.pos, zone: true } }
+            }
+            Op::Next | Op::Prev => {
+                if res > 0 { Abs { pos: res, zone: a.zone } } else { Abs { pos: a.pos, zone: true } }
+            }
+            Op::Current => a.clone(),
+            Op::Reset => Abs { pos: 0, zone: false },
+        }
+    };
+    let mut s = new_session(out, entries.clone(), dict, data);
+    let mut seen: HashSet<(Vec<(u64, u64, Option<usize>)>, bool, Abs)> = HashSet::new();
+    let mut queue: VecDeque<Vec<Op>> = VecDeque::new();
+    queue.push_back(vec![]);
+    let mut explored = 0usize;
+    let mut first = true;
+    while let Some(hist) = queue.pop_front() {
+        if explored >= max_states {
+            break;
+        }
+        explored += 1;
+        // reach the state again on a fresh cursor
+        let Some(c) = s.cursor(first) else { return };
+        first = false;
+        let mut abs = Abs { pos: 0, zone: false };
+        for op in &hist {
+            let res = s.op(c, op);
+            abs = step(&abs, op, res);
+        }
+        if hist.is_empty() {
+            let (init, fp) = s.cursors[c - 1].verif_fingerprint();
+            seen.insert((fp, init, abs.clone()));
+        }
+        for op in &ops {
+            let d = s.clone_cursor(c);
+            let res = s.op(d, op);
+            if res >= 0 {
+                let a2 = step(&abs, op, res);
+                let (init, fp) = s.cursors[d - 1].verif_fingerprint();
+                if seen.insert((fp, init, a2)) {
+                    let mut h = hist.clone();
+                    h.push(op.clone());
+                    queue.push_back(h);
+                }
+            }
+            s.forget(d);
+        }
+        s.forget(c);
+    }
+    let left = queue.len();
+    s.out.ev(json!({"ev": "Explored", "states": explored, "left_on_queue": left, "distinct_seen": seen.len()}));
 }
